@@ -295,8 +295,11 @@ def slice_el(neg=True):
     )
 
 
+# a Split without branches acts like an empty Sequence: a streaming identity, whatever its bufsize
+empty_split = st.builds(lambda b: ["split", [], b], st.sampled_from([1, 2, 3, 1000, None]))
+
 stream_el = st.one_of(
-    simple_el, simple_el, simple_el,
+    simple_el, simple_el, simple_el, empty_split,
     slice_el(),
     st.builds(lambda n: ["count", n], st.sampled_from(["count", "n2"])),
     st.builds(lambda p, xs: ["runif", p, xs], preds, st.lists(simple_el, max_size=2)),
@@ -369,7 +372,7 @@ def check_idle(log, src, when, case):
 def judge_pipeline(case):
     els, n = case["els"], case["n"]
     xs = list(range(n))
-    has_split = els and els[0][0] == "split"
+    has_split = els and els[0][0] == "split" and els[0][1]
     if has_split:
         b = els[0][2]
         points = sorted(set(list(range(0, n + 1, b)) + [n]))
@@ -442,7 +445,7 @@ def inf_slice():
 
 
 inf_el = st.one_of(
-    inf_simple, inf_simple, inf_slice(),
+    inf_simple, inf_simple, inf_slice(), empty_split,
     st.builds(lambda n: ["count", n], st.sampled_from(["count"])),
     st.builds(lambda p, xs: ["runif", p, xs], inf_preds, st.lists(inf_simple, max_size=2)),
     st.just(["print"]), st.just(["context"]),
@@ -458,7 +461,7 @@ def infinite_case(draw):
         els = [["split", bs, draw(st.integers(1, 4))]] + els[:3]
     stop = draw(st.sampled_from([3, 1, 2, 0, 4, 5, 1, 2, 3, 4, 5, 6]))
     pos = draw(st.integers(0, len(els)))
-    if els and els[0][0] == "split":
+    if els and els[0][0] == "split" and els[0][1]:
         pos = max(pos, 1)
     final = draw(st.sampled_from([["slice", stop], ["slice", 0, stop], ["slice", draw(st.integers(0, 2)), stop + 2, draw(st.integers(1, 2))],
                                   # a non-negative stop ends the run also with a negative start (no result, but it must return)
@@ -471,7 +474,7 @@ def judge_infinite(case):
     els = case["els"]
     N = 96
     xs = list(range(N))
-    has_split = els and els[0][0] == "split"
+    has_split = els and els[0][0] == "split" and els[0][1]
     with contextlib.redirect_stdout(io.StringIO()):
         log = []
         src = Src(None, log, infinite=True)
